@@ -973,7 +973,7 @@ def y_group_origin(prog, rep, rule):
     # the loop shape that the model below mirrors (checked so that the model stays faithful)
     shape = ["region_list=list(self.regions.values())", "whileregion_list:", "fori,first_regioninenumerate(region_list):", 'iffirst_region.connections["lower"]isNone:', "break",
              "next_region=first_region", "next_region.yGroupIndex=len(group)", "group.append(next_region)", "region_list.pop(i)", 'next_region=next_region.getNeighbour("upper")',
-             "ifnext_regionisNoneorgroup.count(next_region)>0:", "i=region_list.index(next_region)", "self.y_groups.append(group)"]
+             "if next_region is None or group.count(next_region) > 0:", "i=region_list.index(next_region)", "self.y_groups.append(group)"]
     missing = [s for s in shape if K(s) not in text]
     if missing:
         rep.error(rule, "y-grouping loop no longer has the modelled shape (missing %s): update hv/props/c08.py" % missing, f.site())
